@@ -1,7 +1,56 @@
-import PvlModel.Model.Spec
+import PvlModel.Lemmas.LexWs
 /-!
 # C04 — white space and comments never change the meaning of a label
-(theorems are added below as they are proved; see DESIGN §5)
+
+Proved here (lexer level, unbounded in the text and in the runs): **a run of white space between lexemes
+can be replaced by any other non-empty run of white space** without changing the texts of the tokens the
+lexer delivers or whether it reaches the end of the text (`C04_whitespace_run`).  "Between lexemes" is
+the lexer's own notion: after the text before the run, the lexer holds no pending lexeme and is outside
+any quoted string, comment or units expression (`cleanAfter`) — inside those, white space is content.
+The proof shows that the lexer treats the text before the run the same way whatever white space follows
+(`lexGo_prefix`, `lexPre_ws`: the one character of look-ahead and the two-character look-ahead for
+comment openers cannot tell the runs apart), skips the run (`lexGo_ws_run`), and continues from the same
+state (`lexGo_prev`, `lexGo_texts_shift`).
+
+`plainWs` is what the proof needs of a white-space character (allowed, no role in comments, numbers,
+units, quotes); `C04_whitespace_tables` evaluates it for all six white-space characters of the five
+generated tables, so the theorem applies to blank, tab, LF, CR, VT and FF in every dialect.
+
+Not proved: removing white space where the grammar makes it optional, inserting it there, and comments
+in place of white space; and the step from token texts to the module (the parser reads positions only
+for error messages and placeholder line numbers).  Those are decided by loading each generated document
+in four layouts and the re-laid-out corpus files (`vlib/props/c04.py`).
 -/
 namespace Pvl
+
+/-- blank, tab, LF, CR, VT, FF are plain white space in every generated table -/
+theorem C04_whitespace_tables :
+    ∀ g ∈ [Gen.pvl, Gen.odl, Gen.pds, Gen.isis, Gen.omni], ∀ w ∈ [32, 9, 10, 13, 11, 12], plainWs g w = true := by
+  decide +kernel
+
+/-- **C04, white space between lexemes** -/
+theorem C04_whitespace_run (g : Grammar) (d : Dec) (A B ws1 ws2 : Str)
+    (h1 : ∀ w ∈ ws1, plainWs g w = true) (h2 : ∀ w ∈ ws2, plainWs g w = true)
+    (n1 : ws1 ≠ []) (n2 : ws2 ≠ []) (hclean : cleanAfter g d A (ws1.head n1)) :
+    texts (lexAll g d (A ++ ws1 ++ B)) = texts (lexAll g d (A ++ ws2 ++ B)) :=
+  ws_run_irrelevant g d A B ws1 ws2 h1 h2 n1 n2 hclean
+
+/-- leading white space (the empty prefix is a clean boundary) -/
+theorem C04_leading_whitespace (g : Grammar) (d : Dec) (B ws1 ws2 : Str)
+    (h1 : ∀ w ∈ ws1, plainWs g w = true) (h2 : ∀ w ∈ ws2, plainWs g w = true)
+    (n1 : ws1 ≠ []) (n2 : ws2 ≠ []) :
+    texts (lexAll g d (ws1 ++ B)) = texts (lexAll g d (ws2 ++ B)) := by
+  have := C04_whitespace_run g d [] B ws1 ws2 h1 h2 n1 n2 (by simp [cleanAfter, lexPre, LS.clean])
+  simpa using this
+
+/-- the premise is satisfiable and not trivial: after `a` followed by a blank the lexeme has been yielded
+    (clean); after `"a` followed by a blank the lexer is inside a quoted string (not clean) -/
+example : cleanAfter Gen.pvl ⟨Gen.pvl, .pvl⟩ [97] 32 ∧ ¬ cleanAfter Gen.pvl ⟨Gen.pvl, .pvl⟩ [34, 97] 32 := by
+  refine ⟨?_, ?_⟩
+  · unfold cleanAfter
+    exact ⟨by rfl, by rfl⟩
+  · unfold cleanAfter
+    intro h
+    exact absurd h.1 (by decide)
+
 end Pvl
